@@ -168,7 +168,16 @@ impl Gen {
             quick,
             single_lists: if quick { token_lists(10, 3) } else { token_lists(16, 4) },
             hist_forms: token_lists(5, 2),
-            formats: formats(if quick { 3 } else { 5 }),
+            formats: {
+                // every short format, and a few longer numeric fields with decimals (a sign and a whole part of 0 need room)
+                let mut f = formats(if quick { 3 } else { 5 });
+                for extra in ["##.#", "##.##", "###.#", "###.##", "#,###.##", "x##.#y", "##.## ##.#"] {
+                    if !f.iter().any(|g| g.as_slice() == extra.as_bytes()) {
+                        f.push(extra.as_bytes().to_vec());
+                    }
+                }
+                f
+            },
             vlists: value_lists(false),
         }
     }
@@ -189,7 +198,7 @@ impl Gen {
                 (1..=self.hist_depth() as u32).map(|d| e.pow(d)).sum()
             }
             "using" => (self.formats.len() * self.vlists.len() * 3 * 2) as u64,
-            "nested" => 3 * 4 * 3 * 3 * 2,
+            "nested" => 3 * 4 * 4 * 3 * 2,
             "wide" => (WIDE_LENGTHS.len() * 4 * 3) as u64,
             "forms" => (FORM_FORMATS.len() * 3 * 2 + 12 * 3) as u64,
             "uhist" => {
@@ -467,8 +476,8 @@ impl Gen {
                 let idx = idx / 2;
                 let pos = (idx % 3) as usize;
                 let idx = idx / 3;
-                let inner_end = (idx % 3) as usize;
-                let idx = idx / 3;
+                let inner_end = (idx % 4) as usize;
+                let idx = idx / 4;
                 let inner_dev = (idx % 4) as usize;
                 let outer_dev = (idx / 4) as usize;
                 if outer_dev >= 3 {
@@ -477,10 +486,16 @@ impl Gen {
                 let fname = format!("FN{}{}$", inner_dev, inner_end);
                 let inner_toks = match inner_end {
                     0 => vec![Tok::Val(1)],
-                    1 => vec![Tok::Val(1), Tok::Semi],
+                    1 | 3 => vec![Tok::Val(1), Tok::Semi],
                     _ => vec![Tok::Val(1), Tok::Comma],
                 };
-                let defs = format!("FUNCTION {}\n{}\n{} = \"v\"\nEND FUNCTION\n", fname, stmt_text(inner_dev, &inner_toks), fname);
+                // inner_end 3: the inner PRINT fails after its first item (a division by zero in the second), the error is
+                // trapped inside the FUNCTION, which returns into the outer statement: what was written stays, the line is open
+                let defs = if inner_end == 3 {
+                    format!("FUNCTION {}\nON ERROR RESUME NEXT\n{} 1 / ZZ%; \"q\"\nON ERROR GOTO 0\n{} = \"v\"\nEND FUNCTION\n", fname, stmt_text(inner_dev, &inner_toks), fname)
+                } else {
+                    format!("FUNCTION {}\n{}\n{} = \"v\"\nEND FUNCTION\n", fname, stmt_text(inner_dev, &inner_toks), fname)
+                };
                 let mut ops = vec![];
                 let line;
                 if using {
@@ -732,7 +747,7 @@ pub fn drive(tier: &str) -> i32 {
         run.capped = true;
     }
     let mut ev = Evidence::new("model_checking");
-    ev.set("rule", "single: every PRINT list of up to 3 (thorough 4) tokens over the value menu (numbers of every type and sign, strings incl. empty, of 13/14/15 characters and with embedded CR, LF, CR LF) and the two separators, no two values adjacent, on screen / LPT1 / file #1 starting at columns 0, 2, 13, 14, 15, 27. hist: the full tree of histories of depth <= 2 (thorough 3) over 32 statement forms x 3 devices. bfs: breadth-first search over the model's states (column residue mod 14 of each device; at most 14^3), whole levels at a time (quick: as many whole levels as fit in 250 expanded states; thorough: until no new state appears), every (state, event) transition replayed on the implementation after the shortest history reaching the state. using: every format string up to length 3 (thorough 5) over {# . , \\ blank ! x} x value lists (1-3 values, format reuse) x trailing semicolon. uhist: the full tree of histories of depth <= 2 (thorough 3) over 5 PRINT USING statements (formats that are left in the middle, several values, literal tails) and 2 plain ones x trailing semicolon x 3 devices. nested: a PRINT / PRINT USING list on each device whose first, middle or last item calls a FUNCTION that itself PRINTs to each device (ending with nothing, semicolon, comma). After every case each device's hidden column is exposed by `, \"|\"`. Oracle: exact bytes of stdout, LPT1 and both files against the column model. wide: strings of 27 .. 1000 characters (every length within one of 28, 42, 70, 80, 256) in four statement forms (string then comma, the comma in the next statement, between two numbers, twice and a trailing comma) on screen, LPT1 and a file: the comma pads to the next multiple of 14 whatever the width. forms: the format of PRINT USING held by a STRING * n variable and by a STRING * n field of a record (6 formats x 3 devices); a PRINT that ends in a separator, or a bare PRINT, as the THEN part of a single-line IF with an ELSE part (6 pairs x both branches x 3 devices).");
+    ev.set("rule", "single: every PRINT list of up to 3 (thorough 4) tokens over the value menu (numbers of every type and sign, strings incl. empty, of 13/14/15 characters and with embedded CR, LF, CR LF) and the two separators, no two values adjacent, on screen / LPT1 / file #1 starting at columns 0, 2, 13, 14, 15, 27. hist: the full tree of histories of depth <= 2 (thorough 3) over 32 statement forms x 3 devices. bfs: breadth-first search over the model's states (column residue mod 14 of each device; at most 14^3), whole levels at a time (quick: as many whole levels as fit in 250 expanded states; thorough: until no new state appears), every (state, event) transition replayed on the implementation after the shortest history reaching the state. using: every format string up to length 3 (thorough 5) over {# . , \\ blank ! x} and 7 longer numeric fields with decimals x value lists (12 values: whole numbers, fractions below one of both signs, strings; (1-3 values, format reuse) x trailing semicolon. uhist: the full tree of histories of depth <= 2 (thorough 3) over 5 PRINT USING statements (formats that are left in the middle, several values, literal tails) and 2 plain ones x trailing semicolon x 3 devices. nested: a PRINT / PRINT USING list on each device whose first, middle or last item calls a FUNCTION that itself PRINTs to each device (ending with nothing, semicolon, comma, or failing after its first item with the error trapped inside the FUNCTION). After every case each device's hidden column is exposed by `, \"|\"`. Oracle: exact bytes of stdout, LPT1 and both files against the column model. wide: strings of 27 .. 1000 characters (every length within one of 28, 42, 70, 80, 256) in four statement forms (string then comma, the comma in the next statement, between two numbers, twice and a trailing comma) on screen, LPT1 and a file: the comma pads to the next multiple of 14 whatever the width. forms: the format of PRINT USING held by a STRING * n variable and by a STRING * n field of a record (6 formats x 3 devices); a PRINT that ends in a separator, or a bare PRINT, as the THEN part of a single-line IF with an ELSE part (6 pairs x both branches x 3 devices).");
     ev.set("exhaustive", !run.capped);
     ev.set("plan", json!(plan));
     ev.set("states", states as u64);
